@@ -13,12 +13,42 @@ import TxVerif.Model.Engine
 import TxVerif.Proofs.IdSet
 namespace TxVerif
 
-/-- reopening keeps root, contents of every page, both free lists, end markers, the meta area
-    size and the mapping; only the derived statistic is recomputed -/
+/-- reopening keeps root, contents of every page, both free lists, the meta area and the mapping;
+    the derived statistic is recomputed, and the data end marker is raised over an overflow area
+    if (and only if) the data area may still grow (`absorbOverflow`) -/
 theorem reopen_identity (f : FileSt) :
-    f.reopen.alloc = f.alloc ∧ f.reopen.walMap = f.walMap ∧ f.reopen.walPages = f.walPages ∧
+    f.reopen.alloc = f.alloc.absorbOverflow ∧ f.reopen.walMap = f.walMap ∧ f.reopen.walPages = f.walPages ∧
     f.reopen.root = f.root ∧ f.reopen.txid = f.txid ∧ (∀ id, f.reopen.readPage id = f.readPage id) := by
   simp [FileSt.reopen, FileSt.readPage, FileSt.physOf, FileSt.diskAt]
+
+/-- what `absorbOverflow` leaves alone: everything but the data end marker -/
+theorem absorb_keeps (a : Alloc) :
+    a.absorbOverflow.data.free = a.data.free ∧ a.absorbOverflow.mta = a.mta ∧ a.absorbOverflow.metaTotal = a.metaTotal ∧
+    a.absorbOverflow.maxPages = a.maxPages ∧ a.absorbOverflow.freelistPages = a.freelistPages ∧
+    a.data.endMarker ≤ a.absorbOverflow.data.endMarker := by
+  unfold Alloc.absorbOverflow
+  split
+  · rename_i h; simp; omega
+  · simp
+
+/-- without an overflow area, or on a file that is at (or over) its limit, reopening changes nothing -/
+theorem absorb_id (a : Alloc) (h : a.mta.endMarker ≤ a.data.endMarker ∨ (0 < a.maxPages ∧ a.maxPages ≤ a.data.endMarker)) :
+    a.absorbOverflow = a := by
+  unfold Alloc.absorbOverflow
+  split
+  · rename_i hc; omega
+  · rfl
+
+/-- after reopening, pages handed out from the end of the file can not collide with meta pages:
+    whenever the data area may grow, its end marker is not below the meta end marker -/
+theorem absorb_no_collision (a : Alloc) (hg : a.absorbOverflow.maxPages = 0 ∨ a.absorbOverflow.data.endMarker < a.absorbOverflow.maxPages) :
+    a.mta.endMarker ≤ a.absorbOverflow.data.endMarker := by
+  unfold Alloc.absorbOverflow at *
+  split
+  · simp
+  · rename_i hc
+    simp only [hc, if_false] at hg
+    omega
 
 /-- the regions written for an id set are its maximal runs; expanding them gives the ids back
     (the free list that is read back denotes the same set of pages) -/
